@@ -199,6 +199,45 @@ func (e *bEngine) applyHavocs(st *bState, con *Contract, bind map[string]bVal, p
 			e.storeAt(st, p, e.symVal(st, e.freshName("hv."+name), et))
 		}
 	}
+	// setlen <pointer param>.<slice field> = <expr>: the callee re-slices / grows a slice field of its receiver
+	for _, s := range con.Raw["setlen"] {
+		kv := strings.SplitN(s, "=", 2)
+		if len(kv) != 2 {
+			panic(verr("%s: setlen expects: x.f = expr", con.File))
+		}
+		lx, err1 := parser.ParseExpr(strings.TrimSpace(kv[0]))
+		rx, err2 := parser.ParseExpr(strings.TrimSpace(kv[1]))
+		sel, isSel := lx.(*ast.SelectorExpr)
+		if err1 != nil || err2 != nil || !isSel {
+			panic(verr("%s: bad setlen clause %q", con.File, s))
+		}
+		env := e.env(st, st, bind, nil, con, pkg)
+		base, ok := env.Eval(sel.X).(bPtr)
+		if !ok || base.obj == 0 {
+			panic(verr("%s: setlen: %s is not a non-nil pointer", con.File, exprString(sel.X)))
+		}
+		base = e.nonNil(st, base)
+		fp := bPtr{obj: base.obj, path: base.path + "/" + sel.Sel.Name}
+		cur, ok := e.loadAt(st, fp).(bSlice)
+		if !ok {
+			panic(verr("%s: setlen: %s is not a slice", con.File, exprString(lx)))
+		}
+		n := env.Term(rx)
+		if cur.nil_ {
+			st.nextID++
+			st.objs[st.nextID] = &bObject{id: st.nextID, arr: true, elems: map[string]bVal{}, sym: e.freshName("grown")}
+			if pt := paramType(exprString(sel.X)); pt != nil {
+				if ft := fieldType(deref(pt), sel.Sel.Name); ft != nil {
+					if sl, ok := ft.Underlying().(*types.Slice); ok {
+						st.objs[st.nextID].typ = sl.Elem()
+					}
+				}
+			}
+			cur = bSlice{arr: st.nextID}
+		}
+		cur.len, cur.cap = n, nil
+		e.storeAt(st, fp, cur)
+	}
 	for _, s := range con.Raw["gset"] {
 		kv := strings.SplitN(s, "=", 2)
 		if len(kv) != 2 {
